@@ -2,7 +2,7 @@
     Only statements; every proof is [exact <lemma of Buffers/RWProofs.v>]. *)
 From Coq Require Import List Arith NArith.
 Import ListNotations.
-Require Import Celma.Common.Res Celma.Buffers.RWModel Celma.Buffers.RWProofs.
+Require Import Celma.Common.Res Celma.Buffers.RWModel Celma.Buffers.RWProofs Celma.Buffers.WFail Celma.Buffers.WFailProofs.
 
 (** Any history of get() calls on a fresh ReadBuffer of any capacity, any
     source content, any chunking: the bytes handed out, followed by what is
@@ -77,6 +77,29 @@ Theorem C19_write_passthrough :
                    concat pre = concat sk ++ buffered b /\ w_pos b' = 0 /\ WInv b'.
 Proof. exact wb_passthrough. Qed.
 Print Assumptions C19_write_passthrough.
+
+(** A sink that fails (writeData throws; Buffers/WFail.v - added after the seeded
+    change C19-10, which forgot the buffered bytes before the write, was missed):
+    the buffer, the sink and the results of the other operations are those of
+    the run WITHOUT the operations the sink refused - so the history theorem
+    above speaks about the operations that took effect, and a refused operation
+    can be repeated: nothing is lost, nothing is written twice. *)
+Theorem C19_failing_sink_effective_operations :
+  forall ops b sk outs bf sf eff,
+    wb_run_f b sk ops = (outs, bf, sf, eff) ->
+    (forall o, In o outs -> match o with WFault _ => False | _ => True end) ->
+    exists outs', wb_run b sk eff = (outs', bf, sf).
+Proof. exact wb_run_f_effective. Qed.
+Print Assumptions C19_failing_sink_effective_operations.
+
+Theorem C19_failed_operation_can_be_repeated :
+  forall b sk o,
+    calls_write b o = true ->
+    let '(outs2, bf2, sf2, _) := wb_run_f b sk [(o, false); (o, true)] in
+    let '(outs, bf, sf) := wb_run b sk [o] in
+    outs2 = WErr ERuntime :: outs /\ bf2 = bf /\ sf2 = sf.
+Proof. exact failed_operation_can_be_repeated. Qed.
+Print Assumptions C19_failed_operation_can_be_repeated.
 
 (** Non-vacuity: concrete histories that meet the hypotheses and exercise the
     compaction, refill and pass-through branches. *)
